@@ -242,6 +242,31 @@ Fixpoint spans_of_starts (starts : list nat) : list pspan :=
   | a :: ((b :: _) as r) => (a, Some b) :: spans_of_starts r
   end.
 
+
+(* ----------------------------------------------------------------------- column rulers of a format *)
+(* Bernese files carry their own column ruler ("****************      ***  YYYY MM DD HH MM SS ...").  A field is inside
+   its column when the ruler under the field's window starts and ends with a non-blank and has no two blanks in a row. *)
+Fixpoint first_win (i : nat) (sk : list cell) (pos : nat) : option nat :=
+  match sk with
+  | [] => None
+  | c :: r => if is_win i c then Some pos else first_win i r (S pos)
+  end.
+Definition win_span (sk : list cell) (i : nat) : option (nat * nat) :=
+  match first_win i sk 0 with Some a => Some (a, (a + count_win i sk)%nat) | None => None end.
+Fixpoint no_double_blank (s : string) : bool :=
+  match s with
+  | String a ((String b _) as r) => negb (is_space a && is_space b) && no_double_blank r
+  | _ => true
+  end.
+Definition window_in_ruler (ruler : string) (ab : nat * nat) : bool :=
+  let s := slice (fst ab) (snd ab) ruler in
+  (len s =? snd ab - fst ab)%nat && (0 <? len s)%nat && trimmed s && no_double_blank s.
+Definition fields_in_ruler (ruler : string) (lay : layout) : bool :=
+  let '(st, _) := split_tail lay in
+  let sk := skel st in
+  forallb (fun i => match win_span sk i with Some ab => window_in_ruler ruler ab | None => false end)
+          (seq 0 (List.length (fields_of st))).
+
 (* ------------------------------------------------------------------------------------------ parsers *)
 Definition slice_span (sp : pspan) (line : string) : string :=
   match sp with (a, Some b) => slice a b line | (a, None) => drop a line end.
@@ -277,7 +302,7 @@ Definition rpad (f : fld) (c : string) : nat := match f_al f with AL => (f_w f -
 Fixpoint lay_pieces (g : nat) (lay : layout) (cs : list string) : option (list (nat * string) * nat) :=
   match lay with
   | [] => Some ([], g)
-  | Lit s :: r => if all_space s then lay_pieces (g + len s) r cs else None
+  | Lit s :: r => if String.eqb s (spaces (len s)) then lay_pieces (g + len s) r cs else None
   | Fld f :: r => match cs with
                   | c :: cs' => match lay_pieces (rpad f c) r cs' with
                                 | Some (ps, ge) => Some ((g + lpad f c, c)%nat :: ps, ge)
